@@ -237,10 +237,10 @@ func astEqual(a, b interface{}, path string) (bool, string) {
 }
 
 var (
-	posType      = reflect.TypeOf(token.NoPos)
-	cgType       = reflect.TypeOf((*ast.CommentGroup)(nil))
-	objType      = reflect.TypeOf((*ast.Object)(nil))
-	scopeType    = reflect.TypeOf((*ast.Scope)(nil))
+	posType   = reflect.TypeOf(token.NoPos)
+	cgType    = reflect.TypeOf((*ast.CommentGroup)(nil))
+	objType   = reflect.TypeOf((*ast.Object)(nil))
+	scopeType = reflect.TypeOf((*ast.Scope)(nil))
 )
 
 func valEqual(a, b reflect.Value, path string) (bool, string) {
